@@ -161,7 +161,17 @@ ASSUME = ['sibling order within one segment kind is unspecified (unordered_map):
 def unspecified(line, mo):
     return 'ambiguous' in mo
 
+def extra(res, lean, drv, tier, rnd):
+    """route level: 404 / 405 + Allow / handler through Router::route on a live endpoint (shared with C09's driver)"""
+    from vlib import drivers
+    from vlib.props import c09
+    mdrv, err = core.build_driver('drv_mt', drivers.MT_SOURCES)
+    if err:
+        res.failures.append({'kind': 'kdiff', 'detail': 'cannot build the route-level driver: ' + err}); return
+    lines = [l for l in c09.gen(tier, rnd) if l.startswith('route ')]
+    core.kdiff(res, lean, mdrv, lines, oracle=c09.oracle, classify=lambda l, o: ('route',) + tuple(l.split()[1:]) + (o[:3],), tag='route:', retry=2)
+
 def run(tier):
-    return core.standard_run(PROP, tier, MODULES, THEOREMS, gen, oracle, classify, RULE, ASSUME, unspecified=unspecified)
+    return core.standard_run(PROP, tier, MODULES, THEOREMS, gen, oracle, classify, RULE, ASSUME, extra=extra, unspecified=unspecified)
 def replay(path):
     return core.standard_replay(PROP, path, oracle)
